@@ -222,6 +222,15 @@ impl<T: Ord> BinaryHeap<T> {
     pub fn is_empty(&self) -> bool { self.len() == 0 }
     /// arbitrary order, like std's `BinaryHeap::iter`
     pub fn iter(&self) -> impl Iterator<Item = &T> { self.slots.iter().filter_map(|s| s.as_ref()) }
+    /// arbitrary (slot) order, like std's `BinaryHeap::drain`
+    pub fn drain(&mut self) -> impl Iterator<Item = T> + '_ { self.slots.iter_mut().filter_map(|s| s.take()) }
+    pub fn into_sorted_vec(mut self) -> Vec<T> {
+        let mut v = Vec::new();
+        while let Some(x) = self.pop() { v.push(x); }
+        v.reverse();
+        v
+    }
+    pub fn clear(&mut self) { let mut i = 0; while i < HEAP_CAP { self.slots[i] = None; i += 1; } }
 }
 
 /// Stand-in for a small `Vec<T>` with inline storage (push / take / by-value iteration in insertion
